@@ -118,6 +118,21 @@ def templates(cfg):
 
     T("join_overwritten_same_name", join_overwritten_same_name, TU3)
 
+    def reuse_case_after_swap(p, t):
+        e = p.when(p.C.a > 0).then(p.C.b).otherwise(p.C.c)
+        first = t >> p.mutate(v=e)
+        _ = first
+        return t >> p.rename({"a": "b", "b": "a"}) >> p.mutate(v=e, w=p.C.a.cast(p.Float64()) if False else p.C.a + 0)
+
+    T("reuse_case_after_swap", reuse_case_after_swap)
+
+    def reuse_cast_on_derived(p, t):
+        e = p.C.a.cast(p.Float64()) + 1
+        d = t >> p.mutate(x=e)
+        return d >> p.mutate(a=t.b) >> p.mutate(y=e)
+
+    T("reuse_cast_on_derived", reuse_cast_on_derived)
+
     def join_then_rename(p, t, u):
         j = t >> p.inner_join(u, t.a == u.a) >> p.rename({"a": "x", "x": "a"})
         return j >> p.mutate(p1=t.a, p2=u.x, p3=p.C.a, p4=p.C.x)
@@ -135,6 +150,8 @@ def rejections():
     R.append(("unrelated_table", TU, lambda p, t, u: t >> p.mutate(z=u.x), "ColumnNotFoundError"))
     R.append(("unrelated_in_arrange", TU, lambda p, t, u: t >> p.arrange(u.x), "ColumnNotFoundError"))
     R.append(("unrelated_in_on", [("t", {"a": INT, "b": INT}), ("u", {"a": INT, "x": INT}), ("v", {"k": INT})], lambda p, t, u, v: t >> p.inner_join(u, t.a == v.k), "ValueError"))
+    R.append(("on_col_dropped_by_summarize", TU, lambda p, t, u: t >> p.group_by(t.a) >> p.summarize(s=t.b.sum()) >> p.inner_join(u, t.b == u.x), "ValueError"))
+    R.append(("on_col_cut_by_alias", TU, lambda p, t, u: t >> p.alias("z") >> p.inner_join(u, t.a == u.a), "ValueError"))
     R.append(("after_union_hidden", [("t", {"a": INT, "b": INT}), ("u", {"b": INT, "a": INT})], lambda p, t, u: (t >> p.select(t.a)) >> p.union(u >> p.select(u.a)) >> p.mutate(z=t.b), "ColumnNotFoundError"))
     R.append(("select_hidden_again", S, lambda p, t: t >> p.drop(t.a) >> p.select(t.a), "ColumnNotFoundError"))
     R.append(("unknown_name", S, lambda p, t: t >> p.mutate(z=p.C.nope), "ColumnNotFoundError"))
